@@ -130,9 +130,10 @@ protected:
         auto termIt = nameToTerm.find(name);
         if (termIt == nameToTerm.end()) { return false; }
 
-        auto const & term = termIt->second;
+        PTRef const term = termIt->second;
         auto & names_ = _namesForTerm(term);
         names_.erase(std::find(names_.begin(), names_.end(), name));
+        if (names_.empty()) { termToNames.erase(term); }
         nameToTerm.erase(termIt);
         return true;
     }
